@@ -344,7 +344,7 @@ func widen(r *rand.Rand, c *EngCase) {
 			// the granting parent: one at a page boundary of the storage order (chosen once the
 			// rows are stored, see BoundaryMember), or any
 			if r.Intn(3) != 0 {
-				off := pick(r, []int{-1, 0, 1})
+				off := pick(r, []int{0, 0, -1, 1})
 				c.BoundaryMember = func(stored []Tup) *Tup {
 					var ps []Sub
 					for _, t := range stored {
@@ -389,7 +389,7 @@ func widen(r *rand.Rand, c *EngCase) {
 		if r.Intn(3) != 0 {
 			// the subject is a member of the subject set that is 1000th / 1001st / 1002nd (or 2000th…)
 			// in storage order: the rows around the traverser's page boundary
-			off := pick(r, []int{-1, 0, 1})
+			off := pick(r, []int{0, 0, -1, 1})
 			mult := 1 + r.Intn(n/1000)
 			qq := c.Query
 			c.BoundaryMember = func(stored []Tup) *Tup {
